@@ -26,10 +26,10 @@ PROP = dict(
         "non-strict encoding are sets of integers (rel.ValueLess order of mixed sets is C06's subject)",
         "wire documents fed to UnmarshalFromJSON directly have distinct keys and no '@' attribute names "
         "(TupleBuilder.Finish panics on (@: non-number, @char: ...): C10 KF-pinned-panics)"],
-    level_text="Proof: Lean theorems about the transliterated codecs - strict JSON/YAML decode then encode returns the "
+    level_text="Proof: 25 Lean theorems about the transliterated codecs - strict JSON/YAML decode then encode returns the "
                "(duplicate-free) document for ALL documents, decode.encode.decode = decode (strict: all documents; "
                "non-strict: documents without false/\"\"/[]/{}), strict encoding of a value without plain sets/offsets "
-               "either fails or decodes back to the (tagged) value, the wire format round-trips every value whose sets "
+               "either fails or decodes back to the (tagged) value (and every decoded value lies in that class; the encoder has no panic site left), the wire format round-trips every value whose sets "
                "are arrays/strings/booleans, //bits.mask and //bits.set are mutually inverse, and CSV "
                "decode(encode m) = m for every rectangular string matrix without CR LF fields and blank rows, proved "
                "against a character-level model of encoding/csv. Each guard has a witness theorem showing the full "
